@@ -27,6 +27,10 @@ type C14Case struct {
 	// RO: the handle is opened read-only, so versions left unmerged by the prefix are
 	// still unmerged when the target statement (refresh, create, ...) runs
 	RO bool `json:"ro,omitempty"`
+	// Late: a statement another writer (opened before the target handle) commits after the
+	// target handle was opened: the target statement runs on a handle that has not merged
+	// that writer's version (e.g. a vacuum next to an unmerged sibling version)
+	Late *Stmt `json:"late,omitempty"`
 }
 
 func genC14Case(t *rapid.T) C14Case {
@@ -38,7 +42,7 @@ func genC14Case(t *rapid.T) C14Case {
 		g.maxWriters, g.wRefresh = 3, 0
 	}
 	c := C14Case{Prefix: genMWCase(t, g)}
-	c.Target = rapid.SampledFrom([]string{"select", "point", "range", "write", "write", "txn", "txn", "refresh", "version", "changes", "vacuum", "create"}).Draw(t, "target")
+	c.Target = rapid.SampledFrom([]string{"select", "point", "range", "write", "write", "txn", "txn", "refresh", "version", "changes", "vacuum", "vacuum", "vacuum", "create"}).Draw(t, "target")
 	c.Key = rapid.SampledFrom(intKeys(c.Prefix.NKeys)).Draw(t, "key")
 	cfg := stmtGenCfg{keys: intKeys(c.Prefix.NKeys), cols: wideCols, vals: rapid.SampledFrom([]Val{vNull(), vInt(1), vInt(2)}), multiRow: true, wIns: 4, wUpd: 3, wDel: 3}
 	n := 1
@@ -52,11 +56,18 @@ func genC14Case(t *rapid.T) C14Case {
 			c.Stmts = append(c.Stmts, s)
 		}
 	}
-	c.Cut = rapid.SampledFrom([]int64{-1, 41 * 256, 2000}).Draw(t, "cut")
+	c.Cut = rapid.SampledFrom([]int64{-1, -1, 41 * 256, 2000}).Draw(t, "cut")
 	c.Ref = rapid.IntRange(0, 50).Draw(t, "ref")
 	switch c.Target {
 	case "select", "point", "range", "refresh", "version", "changes", "create":
 		c.RO = rapid.IntRange(0, 2).Draw(t, "ro") != 0
+	}
+	if c.Target == "vacuum" || rapid.IntRange(0, 3).Draw(t, "withLate") == 0 {
+		lcfg := cfg
+		lcfg.multiRow = false
+		l := genStmt(t, lcfg, "late")
+		l.T = int64(50 * 256)
+		c.Late = &l
 	}
 	return c
 }
@@ -78,10 +89,42 @@ type c14Handle struct {
 }
 
 func openC14(st *fakes3.Store, spec TableSpec, ro bool) (*c14Handle, error) {
+	return openC14As(st, spec, ro, "tgt")
+}
+
+// withLate opens the target handle; with a late statement, the other writer is opened
+// first and commits it once the target handle is open.
+func (c C14Case) withLate(st *fakes3.Store, spec TableSpec, view MSet) (*c14Handle, []MOp, error) {
+	var lw *c14Handle
+	var err error
+	if c.Late != nil && c.Late.wellFormed() {
+		if lw, err = openC14As(st, spec, false, "late"); err != nil {
+			return nil, nil, fmt.Errorf("late writer: %v", err)
+		}
+		defer lw.close()
+	}
+	h, err := openC14(st, spec, c.RO)
+	if err != nil || lw == nil {
+		return h, nil, err
+	}
+	outcome, added, _ := view.Exec(*c.Late, wideCols)
+	if err := lw.conn.SetWriteTime(baseTime + c.Late.T); err != nil {
+		h.close()
+		return nil, nil, err
+	}
+	q, args := c.Late.SQL(lw.name, "k")
+	if cls := errClass(lw.conn.Exec(q, args...)); cls != outcome {
+		h.close()
+		return nil, nil, fmt.Errorf("late writer: %s: outcome %s, model expects %s", *c.Late, cls, outcome)
+	}
+	return h, added, nil
+}
+
+func openC14As(st *fakes3.Store, spec TableSpec, ro bool, client string) (*c14Handle, error) {
 	h := &c14Handle{st: st, conn: newConn(), name: uniqName("tg")}
 	h.b, _ = newBucket(st)
 	h.spec = spec
-	h.spec.Bucket, h.spec.Name, h.spec.Client, h.spec.ReadOnly = h.b, h.name, "tgt", ro
+	h.spec.Bucket, h.spec.Name, h.spec.Client, h.spec.ReadOnly = h.b, h.name, client, ro
 	if err := h.conn.Create(h.spec); err != nil {
 		h.close()
 		return nil, err
@@ -218,7 +261,6 @@ func runC14(c C14Case, o *Obs) error {
 	if err != nil {
 		return err
 	}
-	before := view.Rows(wideCols)
 
 	tgtReqs := func(st *fakes3.Store, from int) int {
 		n := 0
@@ -232,10 +274,18 @@ func runC14(c C14Case, o *Obs) error {
 
 	// reference run
 	refStore := r.store.Clone()
-	h, err := openC14(refStore, r.spec, c.RO)
+	h, lateOps, err := c.withLate(refStore, r.spec, view)
 	if err != nil {
 		return fmt.Errorf("reference open: %v", err)
 	}
+	withLateOps := func(s MSet) Rows {
+		u := s.Clone()
+		for _, op := range lateOps {
+			u.Add(op)
+		}
+		return u.Rows(wideCols)
+	}
+	before := withLateOps(view)
 	from := refStore.LogLen()
 	ref := h.runTarget(c, view, r.snaps)
 	nreq := tgtReqs(refStore, from)
@@ -247,8 +297,14 @@ func runC14(c C14Case, o *Obs) error {
 		}
 		return fmt.Errorf("target %s fails without any fault: %v", c.Target, ref.err)
 	}
-	after := ref.after.Rows(wideCols)
+	after := withLateOps(ref.after)
 	o.Class("target-" + c.Target)
+	if len(lateOps) > 0 {
+		o.Class("target-on-handle-with-unmerged-later-version")
+		if c.Target == "vacuum" && c.Cut < 0 {
+			o.Class("vacuum-next-to-unmerged-version-under-fault")
+		}
+	}
 	if c.RO && len(r.currentNames()) >= 2 && (c.Target == "refresh" || c.Target == "create") {
 		o.Class("target-merges>=2-under-fault")
 	}
@@ -265,7 +321,7 @@ func runC14(c C14Case, o *Obs) error {
 
 	for _, md := range modes {
 		st := r.store.Clone()
-		h, err := openC14(st, r.spec, c.RO)
+		h, _, err := c.withLate(st, r.spec, view)
 		if err != nil {
 			return fmt.Errorf("open for fault run: %v", err)
 		}
@@ -411,6 +467,6 @@ func runC14(c C14Case, o *Obs) error {
 func init() { register("TestC14_Faults", runC14) }
 
 func TestC14_Faults(t *testing.T) {
-	st := newStats(t, "C14", "TestC14_Faults", "a committed prefix history by 1-2 writers (entries_per_node 2-4096), then one target statement on a fresh read-write handle: full/point/descending-range SELECT, autocommit write, BEGIN..COMMIT of 1-3 statements, s3db_refresh, s3db_version, SELECT from an s3db_changes table, s3db_vacuum, CREATE of a further table on the prefix (opens that merge when 2 versions are unmerged); a fault-free reference run gives the result and the request count R; the statement is re-run for EVERY p<R with a single transport error at p and with every request from p on failing, and once with the connection deadline in the past; each run: error or exactly the reference result, bounded request count (<=50R+1000), no panic, then after clearing the fault s3db_refresh on the same connection and a fresh connection agree, show exactly the contents before or after the statement (after if it reported success), and a follow-up INSERT succeeds and is visible; non-trivial = fault on a GET of a scan/merge/diff on a tree of height>=1, or strictly inside a write/commit/vacuum")
+	st := newStats(t, "C14", "TestC14_Faults", "a committed prefix history by 1-2 writers (entries_per_node 2-4096), then one target statement on a fresh read-write handle: full/point/descending-range SELECT, autocommit write, BEGIN..COMMIT of 1-3 statements, s3db_refresh, s3db_version, SELECT from an s3db_changes table, s3db_vacuum, CREATE of a further table on the prefix (opens that merge when 2 versions are unmerged); for every vacuum target and a quarter of the others a further writer, opened before the target handle, commits one statement after the target handle was opened, so the target runs on a handle that has not merged a current sibling version (vacuum with a year-2100 cutoff then deletes history next to a retained, unmerged version); a fault-free reference run gives the result and the request count R; the statement is re-run for EVERY p<R with a single transport error at p and with every request from p on failing, and once with the connection deadline in the past; each run: error or exactly the reference result, bounded request count (<=50R+1000), no panic, then after clearing the fault s3db_refresh on the same connection and a fresh connection agree, show exactly the contents before or after the statement (after if it reported success), and a follow-up INSERT succeeds and is visible; non-trivial = fault on a GET of a scan/merge/diff on a tree of height>=1, or strictly inside a write/commit/vacuum")
 	checkRapid(t, st, genC14Case, runC14)
 }
